@@ -988,6 +988,8 @@ func genSrvGoAway(p *prng, thorough bool, w *bufio.Writer) {
 				g.settings(4, 1<<20)
 			}
 			g.windowUpdate(0, 1<<20)
+		} else if p.chance(3, 4) {
+			g.windowUpdate(0, 1<<20) // large responses need connection window to finish; now and then the peer never gives it
 		}
 		g.ping(4)
 	}
